@@ -706,6 +706,101 @@ def r19_strip_nested_items(body):
     return s, log
 
 
+def r20_write_fmt(body, display_fn):
+    """R20: `F.write_fmt(format_args!("lit {0} lit {1} …", A0, A1, …))` (what `write!(F, …)` expands to) -> the definition of
+    core::fmt::write for plain `{}` / `{N}` placeholders: all arguments are evaluated first (by reference), then literal
+    pieces and arguments are written in order, returning at the first error:
+        { let __fa0 = &(A0); …  match F.write_str("lit") { Ok(_) => {}, Err(__e) => { return Err(__e); } }
+          match __fa0.<display_fn>(F) { … } …  Ok(()) }
+    `<display_fn>` is the name under which the contract file emits `<T as Display>::fmt` of the argument type (as_inherent).
+    Placeholders with format specs (`{:>8}`, `{:?}`, named arguments) are REFUSED.  (TRUSTED fmt_write_semantics)"""
+    log = []
+    s = body
+    ms = list(_code_find(s, re.compile(r'\b([A-Za-z_]\w*)\s*\.\s*write_fmt\s*\(\s*format_args\s*!\s*\(')))
+    if not ms:
+        raise RuleError('R20: no `F.write_fmt(format_args!(…))` in the body')
+    for m in reversed(ms):
+        po_inner = m.end() - 1
+        pc_inner = match_delim(s, po_inner)
+        k = _skip_ws(s, pc_inner + 1)
+        if s[k] != ')':
+            raise RuleError('R20: unexpected text after format_args!(…)')
+        inner = s[po_inner + 1:pc_inner]
+        # split top-level commas
+        parts = []
+        d = 0
+        last = 0
+        for kind, a, b in tokens(inner):
+            if kind != 'punct':
+                continue
+            c = inner[a]
+            if c in '([{':
+                d += 1
+            elif c in ')]}':
+                d -= 1
+            elif c == ',' and d == 0:
+                parts.append(inner[last:a])
+                last = a + 1
+        parts.append(inner[last:])
+        parts = [p.strip() for p in parts if p.strip()]
+        lit = parts[0]
+        args = parts[1:]
+        if not (lit.startswith('"') and lit.endswith('"')) or '\\' in lit:
+            raise RuleError('R20: format string is not a plain string literal')
+        t = lit[1:-1]
+        pieces = []      # ('lit', text) | ('arg', index)
+        cur = ''
+        i = 0
+        nxt = 0
+        while i < len(t):
+            c = t[i]
+            if c == '{':
+                if t.startswith('{{', i):
+                    cur += '{'
+                    i += 2
+                    continue
+                j = t.index('}', i)
+                spec = t[i + 1:j]
+                if spec == '':
+                    idx = nxt
+                    nxt += 1
+                elif spec.isdigit():
+                    idx = int(spec)
+                else:
+                    raise RuleError('R20: placeholder {%s} is not a plain positional one' % spec)
+                if cur:
+                    pieces.append(('lit', cur))
+                    cur = ''
+                pieces.append(('arg', idx))
+                i = j + 1
+                continue
+            if c == '}':
+                if t.startswith('}}', i):
+                    cur += '}'
+                    i += 2
+                    continue
+                raise RuleError('R20: stray } in the format string')
+            cur += c
+            i += 1
+        if cur:
+            pieces.append(('lit', cur))
+        if any(k == 'arg' and v >= len(args) for k, v in pieces):
+            raise RuleError('R20: placeholder without argument')
+        f = m.group(1)
+        out = ['{ /*R20_write_fmt*/']
+        for n, a in enumerate(args):
+            out.append('let __fa%d = &(%s);' % (n, a))
+        for kind, v in pieces:
+            if kind == 'lit':
+                out.append('match %s.write_str("%s") { Ok(_) => {}, Err(__e) => { return Err(__e); } }' % (f, v))
+            else:
+                out.append('match __fa%d.%s(%s) { Ok(_) => {}, Err(__e) => { return Err(__e); } }' % (v, display_fn, f))
+        out.append('Ok(()) }')
+        s = s[:m.start()] + ' '.join(out) + s[k + 1:]
+        log.append('R20: write_fmt(format_args!(%s, %d args)) -> %d sequential writes via write_str / %s' % (lit, len(args), len(pieces), display_fn))
+    return s, log
+
+
 def ptr_model(body, arr, elem, names):
     """R17: raw pointers into ONE array, modelled as element indices.
 
@@ -855,6 +950,9 @@ SELFTEST = [
     (lambda b: ptr_model(b, 'self.0.ctx', 'Ctx', ['bh', 'r0', 'r1', 'nx']),
      '{ let bh = self.0.ctx.as_mut_ptr(); let mut r0 = bh.add(self.0.s); let mut r1 = bh.add(self.0.e); let mut bh: *mut Ctx; let mut nx: *mut Ctx; bh = r0; loop { nx = bh.add(1); (*bh).h.update(ch); (*nx).v = (*bh).v; r1 = r1.add(1); bh = nx; if bh >= r1 { break; } } }',
      ['{ let bh = 0usize; let mut r0 = verif_ptr_add(bh, self.0.s, self.0.ctx.len()); let mut r1 = verif_ptr_add(bh, self.0.e, self.0.ctx.len()); let mut bh: usize; let mut nx: usize; bh = r0; loop { nx = verif_ptr_add(bh, 1, self.0.ctx.len()); self.0.ctx[bh].h.update(ch); self.0.ctx[nx].v = self.0.ctx[bh].v; r1 = verif_ptr_add(r1, 1, self.0.ctx.len()); bh = nx; if bh >= r1 { break; } } }']),
+    (lambda b: r20_write_fmt(b, 'fmt_display'),
+     '{ f.write_fmt(format_args!("{{{0}|{1}}}", self.norm_hash, self.to_raw_form())) }',
+     ['{ { /*R20_write_fmt*/ let __fa0 = &(self.norm_hash); let __fa1 = &(self.to_raw_form()); match f.write_str("{") { Ok(_) => {}, Err(__e) => { return Err(__e); } } match __fa0.fmt_display(f) { Ok(_) => {}, Err(__e) => { return Err(__e); } } match f.write_str("|") { Ok(_) => {}, Err(__e) => { return Err(__e); } } match __fa1.fmt_display(f) { Ok(_) => {}, Err(__e) => { return Err(__e); } } match f.write_str("}") { Ok(_) => {}, Err(__e) => { return Err(__e); } } Ok(()) } }']),
     (r19_strip_nested_items,
      '{ /// doc\n struct E(u8); struct V<\'a, const N: usize> { block: &\'a [u8; N], } impl<\'a, const N: usize> V<\'a, N> { pub fn new(b: &\'a [u8; N]) -> Self { Self { block: b } } } impl core::fmt::Debug for E { fn fmt(&self, f: &mut F) -> R { if self.0 != 0 { a } else { b } } } if self.is_valid() { x } else { y } }',
      ['{ if self.is_valid() { x } else { y } }']),
@@ -888,6 +986,13 @@ def selftest():
             bad += 1
             print('SELFTEST FAIL: R17 accepted %s' % srcbad)
         except RuleError:
+            pass
+    for srcbad in ('{ f.write_fmt(format_args!("{:>8}", x)) }', '{ f.write_fmt(format_args!("{:?}", x)) }', '{ f.write_fmt(format_args!("{name}", name = x)) }'):
+        try:
+            r20_write_fmt(srcbad, 'fmt_display')
+            bad += 1
+            print('SELFTEST FAIL: R20 accepted %s' % srcbad)
+        except (RuleError, ValueError):
             pass
     # loop ordinals are preserved by the for-rewrite
     src = '{ for i in 0..3 { while x { } } loop { for &c in s.iter() { } } }'
